@@ -451,6 +451,22 @@ def via_yaml(manifest):
     return SnapshotMetadata.from_yaml(md.to_yaml()).manifest
 
 
+def via_views(manifest, flattened):
+    """the container manifest as restore sees it AFTER the same metadata object has served a rank that did not exist at
+    save time: global manifest of a 1-rank snapshot (container entries + one private ObjectEntry per leaf), first the view
+    of rank 1 (a new rank: its private leaves are removed from ITS view), then the view of rank 0"""
+    from torchsnapshot.manifest import ObjectEntry, SnapshotMetadata
+    from torchsnapshot.manifest_ops import get_manifest_for_rank
+    from torchsnapshot.manifest_utils import is_container_entry
+    g = {"0/" + k: e for k, e in manifest.items()}
+    for i, k in enumerate(flattened):
+        g["0/" + k] = ObjectEntry(location=f"0/{i}", serializer="torch_save", obj_type="object", replicated=False)
+    md = SnapshotMetadata.from_yaml(SnapshotMetadata(version="0.0.0", world_size=1, manifest=g).to_yaml())
+    get_manifest_for_rank(md, 1)
+    man0, _ = get_manifest_for_rank(md, 0)
+    return {k: e for k, e in man0.items() if is_container_entry(e)}
+
+
 def roundtrip_failures(spec, prefix, obj=None, tab=None):
     """the property evaluated on the real code: list of (via, class, description)"""
     from torchsnapshot.flatten import flatten, inflate
@@ -462,9 +478,9 @@ def roundtrip_failures(spec, prefix, obj=None, tab=None):
         m, f = flatten(obj, prefix)
     except Exception as e:  # noqa
         return [("flatten", "exception:" + type(e).__name__, f"flatten raised {type(e).__name__}: {ascii(str(e))[:200]}")]
-    for via in ("direct", "yaml"):
+    for via in ("direct", "yaml", "views"):
         try:
-            m2 = m if via == "direct" else via_yaml(m)
+            m2 = m if via == "direct" else (via_yaml(m) if via == "yaml" else via_views(m, f))
             back = inflate(m2, f, prefix)
         except Exception as e:  # noqa
             out.append((via, "exception:" + type(e).__name__,
